@@ -145,7 +145,8 @@ def check_identity(case: typing.Any, ctx: Ctx) -> Info:
         cwd, target, roots, label = designate(case, d, root_rel, file_rel)
         where = "file %s designation %s: cwd=%s target=%r roots=%r" % (file_rel, label, os.path.relpath(cwd, d), target, roots)
         with nu.cwd(cwd):
-            (direct, trans), _ = guarded(pydsdl.read_files, [target], roots, None, None, True, what="read_files:" + label)
+            ck = case.get("container", 0)
+            (direct, trans), _ = guarded(pydsdl.read_files, nu.as_container([target], ck // 6), nu.as_container(roots, ck), None, None, True, what="read_files:" + label)
         require(len(direct) == 1 and not trans, "read_files-result-size", "1 direct, 0 transitive", (len(direct), len(trans)), where)
         got = observe(direct[0])
         for key in ("full_name", "version", "port", "service", "file", "root"):
@@ -223,7 +224,8 @@ def check_multi(case: typing.Any, ctx: Ctx) -> Info:
             targets = list(reversed(targets))
         where = "multi %s: targets=%r roots=%r" % (label, targets, roots)
         with nu.cwd(os.path.join(d, "elsewhere")):
-            (direct, trans), _ = guarded(pydsdl.read_files, targets, roots, None, None, True, what="read_files:multi:" + label)
+            ck = case.get("container", 0)
+            (direct, trans), _ = guarded(pydsdl.read_files, nu.as_container(targets, ck // 6), nu.as_container(roots, ck), None, None, True, what="read_files:multi:" + label)
         want = sorted(
             (".".join([root] + f["ns"] + [f["short"]]), tuple(f["version"]), f["port"], os.path.realpath(a), os.path.realpath(os.path.join(d, t, root)))
             for f, t, _, a in files
@@ -351,6 +353,7 @@ def parts(ctx: Ctx) -> typing.List[Part]:
             "service": st.booleans(),
             "designation": st.integers(0, N_DESIGNATIONS - 1),
             "as_path": st.booleans(),
+            "container": st.integers(0, 35),
         }
     ).filter(lambda c: c["port"] is None or (c["port"] <= 511 if c["service"] else True))
     malformed = st.fixed_dictionaries({"name": st.integers(0, len(MALFORMED) - 1), "ns": st.lists(st.sampled_from(SUBS), max_size=2, unique=True), "dotted_dir": st.sampled_from([False, False, False, True])})
@@ -370,6 +373,7 @@ def parts(ctx: Ctx) -> typing.List[Part]:
             "two_trees": st.sampled_from([True, True, False]),
             "style": st.integers(0, 3),
             "as_path": st.booleans(),
+            "container": st.integers(0, 35),
             "reverse_roots": st.booleans(),
             "reverse_targets": st.booleans(),
         }
